@@ -225,7 +225,7 @@ func solve(o *Obligation, dir string, timeout int, keep bool) *SolveResult {
 		}
 	}
 	launchedAll := false
-	timer := time.NewTimer(1500 * time.Millisecond)
+	timer := time.NewTimer(3000 * time.Millisecond)
 	defer timer.Stop()
 	res := &SolveResult{Status: "unknown", Nodes: nodes}
 	var raws []string
